@@ -136,6 +136,43 @@ def check_spec(ms, M, mm, out, tag, case):
         exp = sorted(expv[v]) if v in expv else None
         if exp != (sorted(got) if got is not None else None) and not (exp == [] and got in (None, [])) and not (exp is None and got in (None, [])):
             out.fail("c10.variable_indices", f"{tag}: variable {v}: indices {got} expected {exp}")
+    # derived mappings: term<->factor<->variable relations must be mutually consistent and match the generator's record
+    try:
+        for t in ms.term_indices:
+            if set(ms.term_factors[t]) != set(t.factors):
+                out.fail("c10.term_factors", f"{tag}: term_factors[{t}] = {ms.term_factors[t]}")
+            want_vars = {v for fac in t.factors for v in ATOMS.get(fac.expr, [])}
+            got_vars = {str(v) for v in ms.term_variables[t]}
+            if ms.term_indices[t] and not want_vars <= got_vars:  # (only terms that emitted columns)
+                out.fail("c10.term_variables", f"{tag}: term_variables[{t}] = {sorted(got_vars)} lacks {sorted(want_vars - got_vars)}")
+        for fac, terms in ms.factor_terms.items():
+            if {t for t in ms.term_indices if fac in t.factors} != set(terms):
+                out.fail("c10.factor_terms", f"{tag}: factor_terms[{fac}] = {terms}")
+        for v, terms in ms.variable_terms.items():
+            if str(v) in "ABGxyz":
+                # (a term whose span was already covered by earlier terms emits no scoped term and hence uses no variable)
+                emitting = {row[0] for row in ms.structure if len(list(row[1])) > 0}
+                want = {t for t in ms.term_indices if t in emitting and any(str(v) in ATOMS.get(fac.expr, []) for fac in t.factors)}
+                if want != set(terms):
+                    out.fail("c10.variable_terms", f"{tag}: variable_terms[{v}] = {[str(t) for t in terms]} expected {[str(t) for t in want]}")
+                if list(ms.get_variable_indices([str(v)])) != list(ms.variable_indices[v]):
+                    out.fail("c10.get_variable_indices", f"{tag}: get_variable_indices([{v}]) != variable_indices[{v}]")
+        for j in range(ncol):
+            if ms.get_slice(j) != slice(j, j + 1) or ms.get_slice(slice(0, j)) != slice(0, j):
+                out.fail("c10.get_slice_int", f"{tag}: get_slice({j})")
+        try:
+            ms.get_slice("no_such_column_or_term")
+            out.fail("c10.get_slice_missing", f"{tag}: get_slice of an unknown identifier did not raise")
+        except ValueError:
+            pass
+        for fac, cs in ms.factor_contrasts.items():
+            lv = {"A": case["levels"].get("A"), "B": case["levels"].get("B"), "G": case["levels"].get("G")}
+            var = next((v for v in ATOMS.get(fac.expr, []) if v in lv), None)
+            if var is not None and len(list(cs.levels)) != lv[var]:
+                out.fail("c10.factor_contrasts", f"{tag}: factor_contrasts[{fac}] has levels {list(cs.levels)} for a {lv[var]}-level column")
+        out.see("derived_mappings_checked")
+    except Exception as e:  # noqa: BLE001
+        out.fail("c10.derived_mappings_raised", f"{tag}: {type(e).__name__}: {str(e)[:150]}")
     return True
 
 
